@@ -52,7 +52,7 @@ var defaultAllowed = []string{
 	"errors", "container/list", "sort", "strings", "bytes", "unicode/utf8", "unicode", "math/bits", "math",
 	"crypto/subtle", "context", "sync/atomic", "sync", "io", "strconv", "slices", "cmp", "maps",
 	"internal/bytealg", "internal/byteorder", "encoding/binary", "encoding/base64", "hash/fnv", "hash/maphash", "hash",
-	"github.com/pkg/errors", "github.com/awnumar/memcall",
+	"github.com/pkg/errors", "github.com/awnumar/memcall", "github.com/awnumar/memguard", "github.com/awnumar/memguard/core",
 	"github.com/aws/aws-sdk-go/aws", "github.com/aws/aws-sdk-go-v2/aws",
 	"internal/godebug", "unsafe", "internal/itoa", "internal/stringslite",
 	"google.golang.org/protobuf", "google.golang.org/grpc/codes", "google.golang.org/grpc/status",
@@ -212,6 +212,12 @@ func (ex *Explorer) worker(id int) {
 		return
 	}
 	defer sol.Close()
+	if lp := os.Getenv("GOSX_LOG"); lp != "" {
+		if f, err := os.Create(fmt.Sprintf("%s.%d", lp, id)); err == nil {
+			sol.Log = f
+			defer f.Close()
+		}
+	}
 	in := &Interp{prog: ex.P.Prog, tb: tb, sol: sol, cfg: ex.cfg, ex: ex, fnStats: map[*ssa.Function]int{}}
 	var prevLog []decision
 	for {
